@@ -75,7 +75,7 @@ declare_tag_set!(pub thorough_implied_end = [cursory_implied_end]
 
 declare_tag_set!(pub heading_tag = "h1" "h2" "h3" "h4" "h5" "h6");
 
-declare_tag_set!(pub special_tag =
+declare_tag_set!(pub html_special_tag =
     "address" "applet" "area" "article" "aside" "base" "basefont" "bgsound" "blockquote" "body"
     "br" "button" "caption" "center" "col" "colgroup" "dd" "details" "dir" "div" "dl" "dt" "embed"
     "fieldset" "figcaption" "figure" "footer" "form" "frame" "frameset" "h1" "h2" "h3" "h4" "h5"
@@ -85,6 +85,15 @@ declare_tag_set!(pub special_tag =
     "summary" "table" "tbody" "td" "template" "textarea" "tfoot" "th" "thead" "title" "tr" "track"
     "ul" "wbr" "xmp");
 //§ END
+
+/// https://html.spec.whatwg.org/multipage/#special
+#[inline(always)]
+pub(crate) fn special_tag(name: ExpandedName) -> bool {
+    html_special_tag(name)
+        || mathml_text_integration_point(name)
+        || matches!(name, expanded_name!(mathml "annotation-xml"))
+        || svg_html_integration_point(name)
+}
 
 pub(crate) fn mathml_text_integration_point(p: ExpandedName) -> bool {
     matches!(
